@@ -377,15 +377,25 @@ def run_check(prop_id, tier="quick", seed=0, replay=None):
     else:
         corpus = load_corpus(prop_id)
         mult = 10 if broken else 1  # a broken obligation raises the search budget
-        cases = corpus + list(prop.gen(rng, tier, mult))
+        cases = None
     judgements = []
     B = 400
     timed_out = False
-    for i in range(0, len(cases), B):
-        if time.time() > t0 + budget_s and i > 0 and not replay:
-            timed_out = True
-            break
-        judgements.extend(evaluate(prop, cases[i:i + B]))
+    if replay:
+        judgements.extend(evaluate(prop, cases))
+    else:
+        import itertools
+        stream = itertools.chain(corpus, prop.gen(rng, tier, mult))
+        first = True
+        while True:
+            batch = list(itertools.islice(stream, B))
+            if not batch:
+                break
+            if not first and time.time() > t0 + budget_s:
+                timed_out = True
+                break
+            first = False
+            judgements.extend(evaluate(prop, batch))
     n_eval = len(judgements)
 
     # 4. classify -----------------------------------------------------------------------
